@@ -467,7 +467,7 @@ func c10ClientIDs(rest []byte) (out [][]byte, descs []string) {
 func TestVerifC10(t *testing.T) {
 	rep := vh.New(t, "C10")
 	defer rep.Finish()
-	rep.Rule = "cases: (A) request headers = api key (advertised keys, kmsg-known unadvertised, unknown, -1) x version boundaries x client-id length field x tagged-field section (count, tag, size over uvarint boundaries incl. 2^63, 2^64-1, over-long varint) x every prefix truncation; (B) frame length prefixes {<0,0,len-1,len,len+1,2^24,2^31-1} x short/exact/long streams x chunked readers; (C) every single-byte / 2-byte / 4-byte / varint substitution at every offset and every prefix truncation of valid kmsg-encoded requests of every advertised (key,version); (D) round trip of generated kmsg requests (5 uniform field variants x client ids x correlation ids x header tag sections, plus every 1-leaf substitution) for every advertised (key,version). Each case goes through ReadFrame then ParseRequest as in Server.handleConnection. Outcome signature = phase, key class, flexible?, parser outcome (error text with numbers removed / panic key / round-trip verdict). Non-trivial = the parser got past the fixed 8-byte header prefix (client id, tagged fields or body decoding was reached)."
+	rep.Rule = "cases: (A) request headers = api key (advertised keys, kmsg-known unadvertised, unknown, -1) x version boundaries x client-id length field x tagged-field section (count, tag, size over uvarint boundaries incl. 2^63, 2^64-1, over-long varint) x every prefix truncation; (B) frame length prefixes {<0,0,len-1,len,len+1,2^24,2^31-1} x short/exact/long streams x chunked readers; (C) every single-byte / 2-byte / 4-byte / varint substitution at every offset and every prefix truncation of valid kmsg-encoded requests of every advertised (key,version); (D) round trip of generated kmsg requests (5 uniform field variants x client ids x correlation ids x header tag sections, plus every 1-leaf substitution) for every advertised (key,version). Each distinct byte string goes through ReadFrame then ParseRequest as in Server.handleConnection (identical truncations are executed once); the exception, counted in spin_guard_header_only and not in evaluations: when the real ParseRequestHeader succeeds on a flexible version and the remaining body contains two uvarint continuation bytes followed by a non-zero byte, only the header parse is executed, because kmsg v1.12.0 internalReadTags iterates a decoded tag count up to 2^32-1 times (about a minute of CPU) and would stall the enumeration. (S) a sub-corpus of A/B and every reported counterexample is served by the real Server.handleConnection. Outcome signature = phase, key class, flexible?, parser outcome (error text with numbers removed / panic key / round-trip verdict). Non-trivial = the parser got past the fixed 8-byte header prefix (client id, tagged fields or body decoding was reached)."
 	rep.Assumptions = []string{
 		"advertised (key,version) set = union of cmd/broker generateApiVersions and cmd/proxy generateProxyApiVersions, read from the source at run time",
 		"franz-go kmsg RequestFormatter stands for 'a standard Kafka client codec'; body equality = parsed.AppendTo bytes equal the client's body bytes and reflect.DeepEqual with the kmsg-normalised original",
